@@ -83,7 +83,7 @@ type Op struct {
 	Srv   int               `json:"srv,omitempty"`
 	AE    string            `json:"ae,omitempty"`
 	Hdr   map[string]string `json:"hdr,omitempty"`
-	Park  int               `json:"park,omitempty"` // bit0: park at get.registered, bit1: park at get.woken
+	Park  int               `json:"park,omitempty"` // bit0: park at get.registered, bit1: park at get.woken, bit2: park at get.enter (after the entry lookup)
 	Pick  int               `json:"pick,omitempty"`
 	Out   *Outcome          `json:"out,omitempty"`
 	Ms    int               `json:"ms,omitempty"`
@@ -318,8 +318,11 @@ func yieldPoint(name string) {
 	}
 	c := w.clients[cid]
 	bit := 1
-	if name == "get.woken" {
+	switch name {
+	case "get.woken":
 		bit = 2
+	case "get.enter":
+		bit = 4 // the entry has been looked up, nothing has been asked of it yet
 	}
 	if c.parkBits&bit == 0 {
 		w.mu.Unlock()
